@@ -10,7 +10,7 @@
 (*           m model, lid/aid identity classes of label/auth (0 = absent),  *)
 (*           <<ch, num, ic>> sort key, L letter, hn/hg/hc = has base        *)
 (*           normal / C1' and N1|N9 / base centroid                         *)
-(*  c.model  analysed model (0 = whole structure)                           *)
+(*  c.model  analysed model (-1 = whole structure; 0 is a model number)        *)
 (*  C04: c.stk candidates (Annot!StackCoherent), c.stacks reported          *)
 (*  C03: c.con contact groups per residue pair, c.pairs reported            *)
 (*  C11: all four lists, c.bcon base->phosphate/ribose contact groups,      *)
@@ -29,7 +29,7 @@ vars == <<idx, cnt>>
 \* ------------------------------------------------------------------ common helpers
 Valid(c, i)   == i \in 1..Len(c.res)
 Key(c, i)     == <<c.res[i].ch, c.res[i].num, c.res[i].ic>>
-InModel(c, i) == Valid(c, i) /\ (c.model = 0 \/ c.res[i].m = c.model)
+InModel(c, i) == Valid(c, i) /\ (c.model = -1 \/ c.res[i].m = c.model)
 SameIdentity(c, i, j) == \/ c.res[i].lid # 0 /\ c.res[i].lid = c.res[j].lid
                          \/ c.res[i].aid # 0 /\ c.res[i].aid = c.res[j].aid
 Idx(s) == 1..Len(s)
